@@ -43,6 +43,8 @@ def pick_step(rng, env, fermi, names, counter, ops=None):
     for _ in range(12):
         op = rng.choice(menu)
         if op == "transpose" and x.ndim >= 1:
+            if rng.random() < 0.12:
+                return {"out": [out], "op": "transpose", "in": [n], "params": {"prop": True}}  # the .T attribute
             perm = list(range(x.ndim))
             rng.shuffle(perm)
             if rng.random() < 0.25:
@@ -60,6 +62,8 @@ def pick_step(rng, env, fermi, names, counter, ops=None):
             p = {}
             if fermi and rng.random() < 0.3:
                 p = {"pd": True}
+            elif rng.random() < 0.3:
+                p = {"prop": True}  # the .H attribute
             return {"out": [out], "op": "dagger", "in": [n], "params": p}
         if op == "fuse" and x.ndim >= 2 and x.blocks:
             groups = rand_groups(rng, x.ndim)
@@ -103,8 +107,16 @@ def pick_step(rng, env, fermi, names, counter, ops=None):
                                "mode": rng.choice(["auto", "fused", "blockwise"])}}
         if op == "squeeze_expand":
             if rng.random() < 0.5 and x.ndim <= 4:
-                return {"out": [out], "op": "expand_dims", "in": [n],
-                        "params": {"axis": rng.randint(0, x.ndim)}}
+                prm = {"axis": rng.randint(0, x.ndim)}
+                if rng.random() < 0.35:
+                    # an explicit charge on the new axis (even parity for fermionic arrays: an odd one is the
+                    # recorded finding expand-dims-odd-charge), direction given or inherited from the neighbour
+                    sym_ = ser.sym_name(x.symmetry)
+                    pool = [c for c in gen.charge_pool(sym_) if not (fermi and gen.py_parity(sym_, c))]
+                    prm["c"] = ser.enc_charge(rng.choice(pool))
+                    if rng.random() < 0.4:
+                        prm["dual"] = rng.random() < 0.5
+                return {"out": [out], "op": "expand_dims", "in": [n], "params": prm}
             ones = [i for i, ix in enumerate(x.indices)
                     if ix.size_total == 1 and list(ix.chargemap)[0] == x.symmetry.combine()]
             if ones:
